@@ -7,7 +7,7 @@ META = {
                    "ExperimentInstance fields/defaults, stdlib evaluated after the constructors are bound (GRP3); the two documented "
                    "rejections precede the definition (GRP4); the `experiments` iterable is consumed by one loop only (GRP5); the schema of "
                    "the expanded task types (SCH1).",
-    "rules": ["GRP1", "GRP2", "GRP3", "GRP4", "GRP5", "SCH1"],
+    "rules": ["GRP1", "GRP2", "GRP3", "GRP4", "GRP5", "GRP6", "SCH1"],
     "assumptions": ["'same executions and outputs' follows from identical task definitions (C01–C08), not re-derived here"],
     "trusted": ["ast parser"],
 }
